@@ -121,8 +121,7 @@ def enc_hashmap_aug_e(w, m, width, enc_value, leaf_extra, combine, enc_extra, em
     def xbits(e):
         xw = W()
         enc_extra(xw, e)
-        assert not xw.refs
-        return ''.join(xw.b)
+        return ''.join(xw.b), list(xw.refs)
     if not m:
         w.u(0, 1)
         enc_extra(w, empty_extra)
@@ -264,11 +263,14 @@ def enc_shard_accounts(w, accounts, **kw):
     """_ (HashmapAugE 256 ShardAccount DepthBalanceInfo) = ShardAccounts;  accounts = {int id: shard account value}"""
     def leaf_extra(sa):
         acc = sa.get('account')
-        g = acc['storage']['balance']['grams'] if acc else sa.get('balance_hint', 0)
-        return {'split_depth': 0, 'balance': {'grams': g}}
+        bal = acc['storage']['balance'] if acc else {'grams': sa.get('balance_hint', 0)}
+        return {'split_depth': sa.get('split_depth', 0), 'balance': {'grams': bal['grams'], 'other': dict(bal.get('other') or {})}}
 
     def combine(a, b):
-        return {'split_depth': 0, 'balance': {'grams': a['balance']['grams'] + b['balance']['grams']}}
+        other = dict(a['balance'].get('other') or {})
+        for k, v in (b['balance'].get('other') or {}).items():
+            other[k] = other.get(k, 0) + v
+        return {'split_depth': 0, 'balance': {'grams': a['balance']['grams'] + b['balance']['grams'], 'other': other}}
     enc_hashmap_aug_e(w, accounts, 256, enc_shard_account, leaf_extra, combine, enc_depth_balance, {'split_depth': 0, 'balance': {'grams': 0}}, **kw)
 
 
